@@ -155,9 +155,11 @@ lazy_static! {
     static ref GIT_CONFIG_PARAMETERS_REGEX: Regex = Regex::new(
         r"(?x)
         (?:                               # Non-capturing group containing union
-            '(delta\.[a-z-]+)=([^']+)'    # Git <2.31.0 format
+            '(delta\.[a-z-]+)=([^']*)'    # Git <2.31.0 format
         |
-            '(delta\.[a-z-]+)'='([^']+)'  # Git ≥2.31.0 format
+            '(delta\.[a-z-]+)'='([^']*)'  # Git ≥2.31.0 format
+        |
+            '(delta\.[a-z-]+)'=?(?:\ |$)  # a key without a value (git -c delta.navigate): true
         )
         "
     )
@@ -168,6 +170,9 @@ fn parse_config_from_env_var_value(s: &str) -> HashMap<String, String> {
     GIT_CONFIG_PARAMETERS_REGEX
         .captures_iter(s)
         .map(|captures| {
+            if let Some(key) = captures.get(5) {
+                return (key.as_str().to_string(), "true".to_string());
+            }
             let (i, j) = match (
                 captures.get(1),
                 captures.get(2),
@@ -231,8 +236,9 @@ impl GitConfigGet for bool {
 impl GitConfigGet for usize {
     fn git_config_get(key: &str, git_config: &GitConfig) -> Option<Self> {
         if let Some(s) = git_config.config_from_env_var.get(key) {
-            if let Ok(n) = s.parse::<usize>() {
-                return Some(n);
+            // (like a value in a config file: 1k, 2m are numbers too)
+            if let Ok(n) = git2::Config::parse_i64(s.as_str()) {
+                return Some(n as usize);
             }
         }
         match git_config.config.get_i64(key) {
